@@ -689,6 +689,41 @@ theorem k3d3_gradient_shadow (p : K3d3.P) (h : K3d3.Adm p) (x y z : ℝ) (hq : p
     · rw [hS]; linear_combination (-(x * p.xd0 + y * p.xd1 + z * p.xd2)) * hlop2
 
 
+/-- first arrival is unique also behind the obstacle: anywhere in the explosive other than the
+detonator the front arrives strictly later than t_d -/
+theorem k3d2_gt (p : K3d2.P) (h : K3d2.Adm p) (q : E2) (hq : p.R ≤ ‖q‖) (hne : q ≠ K3d2.det p) :
+    p.t_d < K3d2.burntime p (q 0) (q 1) := by
+  have h1 := k3d2_ge_straight p h q hq
+  have h2 : 0 < dist q (K3d2.det p) / p.D := div_pos (dist_pos.mpr hne) h.hD
+  linarith
+
+theorem k3d2_eq_td_iff (p : K3d2.P) (h : K3d2.Adm p) (q : E2) (hq : p.R ≤ ‖q‖) :
+    K3d2.burntime p (q 0) (q 1) = p.t_d ↔ q = K3d2.det p := by
+  constructor
+  · intro e
+    by_contra hne
+    exact absurd e (k3d2_gt p h q hq hne).ne'
+  · rintro rfl
+    simpa only [K3d2.det_0, K3d2.det_1] using k3d2_at_detonator p h
+
+/-- first arrival is unique also behind the obstacle: anywhere in the explosive other than the
+detonator the front arrives strictly later than t_d -/
+theorem k3d3_gt (p : K3d3.P) (h : K3d3.Adm p) (q : E3) (hq : p.R ≤ ‖q‖) (hne : q ≠ K3d3.det p) :
+    p.t_d < K3d3.burntime p (q 0) (q 1) (q 2) := by
+  have h1 := k3d3_ge_straight p h q hq
+  have h2 : 0 < dist q (K3d3.det p) / p.D := div_pos (dist_pos.mpr hne) h.hD
+  linarith
+
+theorem k3d3_eq_td_iff (p : K3d3.P) (h : K3d3.Adm p) (q : E3) (hq : p.R ≤ ‖q‖) :
+    K3d3.burntime p (q 0) (q 1) (q 2) = p.t_d ↔ q = K3d3.det p := by
+  constructor
+  · intro e
+    by_contra hne
+    exact absurd e (k3d3_gt p h q hq hne).ne'
+  · rintro rfl
+    simpa only [K3d3.det_0, K3d3.det_1, K3d3.det_2] using k3d3_at_detonator p h
+
+
 /-- non-vacuity: the solver's defaults R = 3, D = 2, x_d = (0, 5), t_d = 0 -/
 example : K3d2.Adm ⟨2, 3, 0, 0, 5⟩ := by
   refine ⟨by norm_num, by norm_num, ?_⟩
